@@ -7,19 +7,19 @@ import (
 )
 
 func c37WQSpecs(r *ev.R) []c37Spec {
-	b2 := ev.Pick(r, 3, 4)
-	b3 := ev.Pick(r, 3, 5)
+	wide := ev.Pick(r, 3, 4) // delay bound of the parameterised scenarios
+	deep := ev.Pick(r, 3, 5) // delay bound of the plain 2x2 + closer scenarios
 	d := "workerqueue"
-	specs := []c37Spec{
-		{Name: "wq-w1-q1-submit-abc", Driver: d, Workers: 1, QSize: 1, Order: "abc", Bound: b3},
-		{Name: "wq-w2-q2-submit-cab-latency", Driver: d, Workers: 2, QSize: 2, Order: "cab", Latency: true, Bound: b2},
-		{Name: "wq-w1-q2-submit-acb-closeafter1", Driver: d, Workers: 1, QSize: 2, Order: "acb", CloseAfter: 1, Latency: true, Bound: b2},
-		{Name: "wq-w1-q1-wait-abc", Driver: d, Workers: 1, QSize: 1, Wait: true, Order: "abc", Bound: b3},
-		{Name: "wq-w2-q1-wait-bca-closeafter2", Driver: d, Workers: 2, QSize: 1, Wait: true, Order: "bca", CloseAfter: 2, Latency: true, Bound: b2},
-		{Name: "wq-w1-q1-wait-subtimeout", Driver: d, Workers: 1, QSize: 1, Wait: true, Order: "abc", SubCtx: "timeout", Latency: true, Bound: b2},
-		{Name: "wq-w1-q2-submit-subcancelled", Driver: d, Workers: 1, QSize: 2, Order: "bac", SubCtx: "cancelled", Bound: b2},
-		{Name: "wq-w1-q2-submit-close-expired", Driver: d, Workers: 1, QSize: 2, Order: "abc", CloseCtx: "expired", Latency: true, Bound: b2},
-		{Name: "wq-w1-q1-wait-close-timeout", Driver: d, Workers: 1, QSize: 1, Wait: true, Order: "acb", CloseCtx: "timeout", Latency: true, Bound: b2},
+	return []c37Spec{
+		{Name: "wq-w1-q1-submit-abc", Driver: d, Workers: 1, QSize: 1, Order: "abc", Bound: deep},
+		{Name: "wq-w2-q2-submit-cab-latency", Driver: d, Workers: 2, QSize: 2, Order: "cab", Latency: true, Bound: wide},
+		{Name: "wq-w1-q2-submit-acb-closeafter1", Driver: d, Workers: 1, QSize: 2, Order: "acb", CloseAfter: 1, Latency: true, Bound: wide},
+		{Name: "wq-w1-q1-wait-abc", Driver: d, Workers: 1, QSize: 1, Wait: true, Order: "abc", Bound: deep},
+		{Name: "wq-w2-q1-wait-bca-closeafter2", Driver: d, Workers: 2, QSize: 1, Wait: true, Order: "bca", CloseAfter: 2, Latency: true, Bound: wide},
+		{Name: "wq-w1-q1-wait-subtimeout", Driver: d, Workers: 1, QSize: 1, Wait: true, Order: "abc", SubCtx: "timeout", Latency: true, Bound: wide},
+		{Name: "wq-w1-q2-submit-subcancelled", Driver: d, Workers: 1, QSize: 2, Order: "bac", SubCtx: "cancelled", Bound: wide},
+		{Name: "wq-w1-q2-submit-close-expired", Driver: d, Workers: 1, QSize: 2, Order: "abc", CloseCtx: "expired", Latency: true, Bound: wide},
+		{Name: "wq-w1-q1-wait-close-timeout", Driver: d, Workers: 1, QSize: 1, Wait: true, Order: "acb", CloseCtx: "timeout", Latency: true, Bound: wide},
+		{Name: "wq-w2-q1-wait-latency-b-after-first-item", Driver: d, Workers: 2, QSize: 1, Wait: true, Order: "abc", Latency: true, BAfterHandled: 1, Bound: wide},
 	}
-	return specs
 }
